@@ -7,6 +7,10 @@ CHECKS = {
    "Generated-input search (grammar documents and byte-mutated ones, widths 1..=120, bounded option mixes) against the validity predicate `every line of Ok output has display width <= width`. Finds over-wide lines in the explored space; no absence proof.",
    "Trusted: unicode-width as the measure (min of per-char sum and string width, so control characters in link targets are not counted); proptest generators; documents up to ~100 nodes.",
    "property-based testing (proptest; validity predicate over generated and byte-mutated documents)"),
+ "C04": ("exploration",
+   "Reference-model oracle: an independent greedy wrapper. Bounded-exhaustive over all sequences of <=3 (quick) / <=5 (thorough) words from an 11-word set x widths 1..=9, plus random paragraphs (<=60 words, 12 separator kinds, text cut over inline elements/text nodes, max_wrap_width, prefixed blocks) x width 1..=40; line lists must be equal and Err <=> a character wider than the line.",
+   "Trusted: the 30-line reference wrapper; words have display width >= 1.",
+   "bounded-exhaustive enumeration + property-based testing (proptest) against a reference model"),
  "C10": ("exploration",
    "Stateful generation: a history of <=6 renders (route x width) is interpreted against one render tree built once and cloned per render; every result is compared with a fresh one-shot rendering (differential oracle), plus determinism and route/free-function agreement.",
    "Trusted: string_from_read as the reference route; identity colour map.",
@@ -15,6 +19,10 @@ CHECKS = {
    "Generated documents (grammar + byte-mutated), widths 0..=60, option mixes; four relations: width 0 => TooNarrow; overflow => always Ok; overflow is a no-op when rendering already succeeds; overflow lines bounded by max(w, P + max(min_wrap,5)) with P computed from the AST.",
    "Trusted: AST-derived prefix widths of the standard decorators; table-free documents for the bound.",
    "property-based testing (proptest; metamorphic relations between render(d,w,o) and render(d,w,o+overflow), AST-derived bound)"),
+ "C12": ("exploration",
+   "Reference-model oracle for <pre>: tab expansion to 8-column stops, line-for-line reproduction when every line fits, per-source-line character conservation / contiguity / piece width otherwise, Preformat(false/true) tags in rich output. One identifying letter per source line makes loss, duplication, reordering and merging of lines countable.",
+   "Trusted: the reference model; only line-trailing whitespace may differ; continuation tags of over-long lines containing whitespace are a known finding and not asserted.",
+   "property-based testing (proptest) against a reference model of preformatted layout"),
  "C13": ("exploration",
    "Metamorphic: a table-free, pre-free grammar document and a source-level rewrite of it (whitespace-run substitution, adjacent comments, layout whitespace between block tags, span wrapping) must render byte-identically at every width when both render.",
    "Trusted: the rewriter only produces the rewrites the property names; Ok/TooNarrow disparity is counted, not asserted.",
